@@ -19,7 +19,7 @@ def run(ctx):
     n = 275 if ctx["tier"] == "quick" else 700
     games = [(START, ["g1f3", "g8f6", "f3g1", "f6g8"] * n),
              ("4k3/8/8/8/8/8/8/R3K2R w KQ - 0 1", ["a1b1", "e8d8", "b1a1", "d8e8"] * n),
-             ("7k/8/8/8/8/8/8/KQ6 b - - 0 1", ["h8g8", "b1b2", "g8h8", "b2b1"] * (n // 2) + ["h8h7", "b1c1", "h7h8", "c1b1"] * (n // 2))]
+             ("7k/8/8/8/8/8/8/KR6 b - - 0 1", ["h8g8", "b1b2", "g8h8", "b2b1"] * (n // 2) + ["h8h7", "b1c1", "h7h8", "c1b1"] * (n // 2))]
     rc, so, se = C.driver(["walk"], "".join("%s | %s\n" % (f, " ".join(ms)) for f, ms in games), timeout=1800)
     lines = so.splitlines()
     if rc != 0 or len(lines) != len(games):
@@ -33,7 +33,10 @@ def run(ctx):
         nodes += 0 if eng.get("panic") else len(eng["nodes"])
         bad = B.engine_self_checks(case, eng)
         if eng.get("stuck"):
-            bad.append({"field": "engine.move_refused", "node": len(eng.get("nodes", [])), "engine": eng["stuck"]})
+            # a move of the committed shuffle was refused: nothing about unmake can be judged beyond that point (a defect of the game
+            # list or of move acceptance, which is C08's matter): reported as a broken leg, not as a failing input of C02
+            rp = C.write_replay("C02", {"broken": "long-game leg: the move %s of a committed shuffle game was refused" % eng["stuck"], "fen": f})
+            res["violations"].append({"replay": rp, "no_input": True})
         if bad:
             d = bad[0]
             k = max(d.get("node", 0), 0)
